@@ -219,6 +219,10 @@ class TransformDMA(RewritePattern):
                 tile_bounds = [[x.data] if x.data > 0 else [None] for x in op.source.type.shape.data]
             tsl_dest = TiledStridedLayoutAttr(TiledStridedLayout.from_strides(strides, tile_bounds, offset))
 
+        # the loop nest below walks both layouts tile by tile with the same bounds
+        if not tsl_source.data.equal_tile_bounds(tsl_dest.data):
+            return
+
         # list of all ops that need to be inserted
         ops_to_insert: list[Operation] = []
 
